@@ -120,3 +120,14 @@ func Quiesce(timeout time.Duration) error {
 		}
 	}
 }
+
+// CountIn counts the goroutines whose stack contains substr (e.g. a function name of the code under test).
+func CountIn(substr string) int {
+	n := 0
+	for _, g := range qSnapshot() {
+		if bytes.Contains(g.text, []byte(substr)) {
+			n++
+		}
+	}
+	return n
+}
